@@ -20,6 +20,8 @@ def main(tier, replay=None):
                 "{1,2,/,.,x,0xFF}^<=4 (thorough: the full product), lengths around the 7/100 limits, numbers around 2^64, unterminated final "
                 "request; each request is fed alone (the helper is quiescent before the next one), the oracle compares the paths passed to "
                 "unlink() and the bytes answered with the documented behaviour; plus a batch with every unlink failing once (EIO/EISDIR)")
+    for prog in ("rspawn", "lspawn"):
+        vk_run(res, "c18spawn", src, rd, "0,1,0,0", 1, 900, "%s-resource-failures" % prog, opts=["family=multi", "prog=" + prog])
     # qmail-send's report channels: stray, mangled and oversized reports while deliveries are in flight.  Run on the sanitised build as
     # well: a range check that is off by one reads a slot behind the delivery table, whose content is whatever the heap holds
     asan = scratch_build(rd, "asan")
@@ -39,7 +41,8 @@ def main(tier, replay=None):
                  "every byte; every sequence of <=3 (thorough 4) commands over 7 (same delivery number twice, invalid between valid); oracle: "
                  "the spawner opens only numerically named paths below queue/mess, a delivery program is started iff id numeric + regular "
                  "file + queue owner + host part and reads exactly that message, exactly one report per complete command carrying its "
-                 "delivery number, documented status letter")
+                 "delivery number, documented status letter; the same command sequences with one failing fork/pipe/open of the spawner itself: still one "
+                 "report per command, a temporary one for the command that hit the failure, and the spawner exits at end of input")
     res.assumptions = ["a request is valid iff it is (foop|todo)/<decimal number < 2^64> NUL with total length 7..100"]
     res.require_nonzero("evaluations", "valid_requests", "rejected_requests", "unlink_failures_injected", "children_started", "reports_checked", "spawner_opens_checked", "reports_stray", "reports_garbage", "reports_oversized")
     lib_conformance(res, rd, src, ['num', 'io'], tier, asan=False)
